@@ -1,7 +1,11 @@
 package scen
 
 import (
+	"encoding/json"
 	"fmt"
+	"runtime"
+	"sort"
+	"strings"
 	"time"
 
 	"simlal/sim"
@@ -97,6 +101,10 @@ type PubState struct {
 	Started  bool
 	Stopped  bool
 	StopStep int
+	Kicked   bool
+	Idled    bool
+	IdleStep int
+	IdleAtMs int64
 }
 
 type ConsState struct {
@@ -133,6 +141,55 @@ type RelayRun struct {
 	Plan RelayPlan
 	Pubs []*PubState
 	Cons []*ConsState
+	// measurements
+	GoroutinesBase int
+	GoroutinesEnd  int
+	FinalGroups    ApiResult
+	EpilogueDone   bool
+	Kicks          []KickRecord
+	goBase         map[string]int
+	GoroutineDiff  string
+}
+
+// goroutineProfile counts this process's goroutines by creation site.
+func goroutineProfile() map[string]int {
+	buf := make([]byte, 4<<20)
+	n := runtime.Stack(buf, true)
+	out := map[string]int{}
+	for _, g := range strings.Split(string(buf[:n]), "\n\n") {
+		site := "main/unknown"
+		if i := strings.LastIndex(g, "created by "); i >= 0 {
+			site = strings.SplitN(g[i+11:], "\n", 2)[0]
+			if j := strings.Index(site, " in goroutine"); j >= 0 {
+				site = site[:j]
+			}
+		}
+		out[site]++
+	}
+	return out
+}
+
+func diffProfile(a, b map[string]int) string {
+	var keys []string
+	for k := range b {
+		// only goroutines created by lal, naza or net/http code count (runtime helpers come and go)
+		if b[k] > a[k] && (strings.Contains(k, "q191201771") || strings.Contains(k, "net/http")) {
+			keys = append(keys, k)
+		}
+	}
+	sort.Strings(keys)
+	var parts []string
+	for _, k := range keys {
+		parts = append(parts, fmt.Sprintf("%s +%d", k, b[k]-a[k]))
+	}
+	return strings.Join(parts, "; ")
+}
+
+type KickRecord struct {
+	Target    string // "pub3" / "cons1"
+	SessionId string
+	Result    ApiResult
+	Step      int
 }
 
 func StreamName(i int) string { return fmt.Sprintf("st%d", i) }
@@ -141,6 +198,9 @@ func StreamName(i int) string { return fmt.Sprintf("st%d", i) }
 func ExecRelay(k *sim.Kernel, pl RelayPlan) *RelayRun {
 	rr := &RelayRun{Plan: pl}
 	rr.W = StartWorld(k, pl.Conf)
+	k.Advance(1100 * time.Millisecond) // first tick done: steady state
+	rr.GoroutinesBase = runtime.NumGoroutine()
+	rr.goBase = goroutineProfile()
 	for _, pp := range pl.Pubs {
 		rr.Pubs = append(rr.Pubs, &PubState{Plan: pp, Units: BuildUnits(pp), StopStep: -1})
 	}
@@ -153,7 +213,62 @@ func ExecRelay(k *sim.Kernel, pl RelayPlan) *RelayRun {
 	k.Settle()
 	k.Advance(1500 * time.Millisecond)
 	k.Settle()
+	if pl.Epilogue {
+		rr.epilogue(k)
+	}
 	return rr
+}
+
+func (rr *RelayRun) epilogue(k *sim.Kernel) {
+	if rr.Plan.Dispose {
+		t := k.Go("dispose", func() { rr.W.Srv.Dispose() })
+		k.Settle()
+		k.Advance(2 * time.Second)
+		if !t.Done() {
+			k.Violate("C16.dispose-hangs", "ILalServer.Dispose did not return: %v", k.BlockedLockWaiters())
+		}
+		for _, p := range rr.Pubs {
+			p.Stopped = true
+		}
+		rr.EpilogueDone = true
+		return
+	}
+	for i, p := range rr.Pubs {
+		if p.Started && !p.Stopped {
+			rr.exec(k, RelayOp{Kind: "stop_pub", Pub: i})
+		}
+	}
+	k.Settle()
+	for i, c := range rr.Cons {
+		if c.Joined && !c.Left {
+			rr.exec(k, RelayOp{Kind: "leave", Cons: i})
+		}
+	}
+	k.Settle()
+	wait := 3500
+	if rr.Plan.Conf.HlsEnable {
+		// the delayed HLS directory clean-up is a legitimate pending task: let it run
+		if d := rr.Plan.Conf.HlsFragMs*(rr.Plan.Conf.HlsFragNum+rr.Plan.Conf.HlsDelThresh) + 1500; d > wait {
+			wait = d
+		}
+	}
+	k.Advance(time.Duration(wait) * time.Millisecond)
+	rr.FinalGroups = rr.W.Api("api-final", "/api/stat/all_group", nil)
+	k.Advance(200 * time.Millisecond)
+	rr.GoroutinesEnd = runtime.NumGoroutine()
+	rr.GoroutineDiff = diffProfile(rr.goBase, goroutineProfile())
+	rr.EpilogueDone = true
+}
+
+// sessionIdOf finds lal's session id of an actor's connection through the start notifications.
+func (rr *RelayRun) sessionIdOf(remote string) string {
+	id := ""
+	for _, e := range rr.W.Notify.Snapshot() {
+		if (e.Kind == "pub_start" || e.Kind == "sub_start") && e.Remote == remote {
+			id = e.SessionId
+		}
+	}
+	return id
 }
 
 func (rr *RelayRun) exec(k *sim.Kernel, op RelayOp) {
@@ -185,7 +300,7 @@ func (rr *RelayRun) exec(k *sim.Kernel, op RelayOp) {
 			return
 		}
 		p := rr.Pubs[op.Pub]
-		if !p.Started || p.Stopped {
+		if !p.Started || p.Stopped || p.Idled {
 			return
 		}
 		for i := 0; i < op.N && p.Queued < len(p.Units); i++ {
@@ -234,6 +349,52 @@ func (rr *RelayRun) exec(k *sim.Kernel, op RelayOp) {
 			c.Http = a
 			a.Connect(PortHttp, 50+op.Cons)
 			rr.W.Observe(a.Observe)
+		}
+	case "kick_pub", "kick_cons":
+		var remote, stream, target string
+		if op.Kind == "kick_pub" {
+			if op.Pub >= len(rr.Pubs) || rr.Pubs[op.Pub].Actor == nil || rr.Pubs[op.Pub].Actor.Conn == nil {
+				return
+			}
+			p := rr.Pubs[op.Pub]
+			remote, stream, target = p.Actor.Conn.RemoteAddr().String(), StreamName(p.Plan.Stream), fmt.Sprintf("pub%d", op.Pub)
+		} else {
+			if op.Cons >= len(rr.Cons) || !rr.Cons[op.Cons].Joined {
+				return
+			}
+			c := rr.Cons[op.Cons]
+			var conn *sim.Conn
+			if c.Rtmp != nil {
+				conn = c.Rtmp.Conn
+			} else if c.Http != nil {
+				conn = c.Http.Conn
+			}
+			if conn == nil {
+				return
+			}
+			remote, stream, target = conn.RemoteAddr().String(), StreamName(c.Plan.Stream), fmt.Sprintf("cons%d", op.Cons)
+		}
+		k.Settle()
+		id := rr.sessionIdOf(remote)
+		if id == "" {
+			return
+		}
+		body, _ := json.Marshal(map[string]string{"stream_name": stream, "session_id": id})
+		res := rr.W.Api(fmt.Sprintf("api-kick-%d", len(rr.Kicks)), "/api/ctrl/kick_session", body)
+		rr.Kicks = append(rr.Kicks, KickRecord{Target: target, SessionId: id, Result: res, Step: k.Step()})
+		if op.Kind == "kick_pub" {
+			rr.Pubs[op.Pub].Stopped = true
+			rr.Pubs[op.Pub].StopStep = k.Step()
+			rr.Pubs[op.Pub].Kicked = true
+		} else {
+			rr.Cons[op.Cons].Kicked = true
+		}
+	case "idle_pub":
+		// the publisher goes silent without closing; the caller advances time afterwards
+		if op.Pub < len(rr.Pubs) && rr.Pubs[op.Pub].Started {
+			rr.Pubs[op.Pub].Idled = true
+			rr.Pubs[op.Pub].IdleStep = k.Step()
+			rr.Pubs[op.Pub].IdleAtMs = k.NowMs()
 		}
 	case "leave":
 		if op.Cons >= len(rr.Cons) {
